@@ -1,67 +1,158 @@
 import PewProofs.Export
+import PewProofs.ExportVtk
+import PewProofs.ExportForeign
 
 /-! # C16 — property theorems (statements only depend on `PewModel.Export` and the hypothesis
-bundle `Clean` on the opaque number printer/parser) -/
+bundles on the opaque tokens: `Clean` for the number printer/converter (`PewProofs.Export`),
+`HeadOk` for the byte-order and spacing tokens of the VTK header (`PewProofs.ExportVtk`)) -/
 namespace Pew.Export
 
 section text
 variable {α : Type}
 
 /-- **text round trip**: every image with `r ≥ 1` rows of `c ≥ 1` columns — single rows, single
-columns and 1×1 included — saved (with or without a one-line header) and loaded is the same image:
-same shape `(r, c)`, same values in the same order.  Assumes only that the number printer is
-inverted by the parser and prints no delimiter, comment or newline character. -/
-theorem text_roundtrip (fmt : α → Str) (parse : Str → Option α) (hc : Clean fmt parse)
-    (header : Option Str) (hh : ∀ h, header = some h → '\n' ∉ h)
+columns and 1×1 included — saved (with any header, also a multi-line one or one containing
+delimiter and comment characters) and loaded is the same image: same shape `(r, c)`, same values in
+the same order.  Assumes only that the number printer is inverted by the converter and prints no
+delimiter, comment, newline or space character (`Clean`; for `'%.18g'` and `float` this is the
+trusted float64 ↔ decimal round trip), and that the header holds no carriage return (a `\r` is a
+line break for the reader but not for the writer: see the `example` below). -/
+theorem text_roundtrip (fmt : α → Str) (conv : Str → α) (hc : Clean fmt conv)
+    (header : Str) (hh : '\r' ∉ header)
     (img : List (List α)) (c : Nat) (hr : img ≠ []) (hcpos : 0 < c) (hcols : ∀ row ∈ img, row.length = c) :
-    loadText parse 2 (saveText fmt header img) = some ([img.length, c], img.flatten) := by
-  apply load_of_table parse _ img c hr hcols
-  apply parse_saved fmt parse hc header hh img
+    loadText conv 2 (saveText fmt header img) = some ([img.length, c], img.flatten) := by
+  apply load_of_rows conv fmt hc.roundtrip _ img c hr hcols
+  apply fieldRows_saved fmt conv hc header hh img
   intro row hrow e
   have := hcols row hrow
   rw [e] at this
   simp at this
   omega
 
+/-- **the choice of delimiter never matters**, for every text file whatsoever: two files that differ
+only in which of `,` `;` tab stands at each delimiter position load to the same result — the same
+array, or both raise, and both warn or neither does. -/
+theorem delimiter_choice_irrelevant (conv : Str → α) (ndmin : Nat) (f g : Str) (h : normalise f = normalise g) :
+    loadText conv ndmin f = loadText conv ndmin g ∧ loadWarns f = loadWarns g := by
+  have : loaderLines f = loaderLines g := by
+    rw [← loaderLines_normalise f, ← loaderLines_normalise g, h]
+  simp [loadText, loadFields, loadWarns, this]
+
 /-- **delimiters agree**: a file whose fields are separated by any mixture of `,`, `;` and tab
 loads to the same image as the comma-separated file that `save` writes (namely the image itself) -/
-theorem delimiters_agree (fmt : α → Str) (parse : Str → Option α) (hc : Clean fmt parse)
+theorem delimiters_agree (fmt : α → Str) (conv : Str → α) (hc : Clean fmt conv)
     (seps : List (List Char)) (img : List (List α)) (c : Nat) (hlen : seps.length = img.length)
     (hs : ∀ ss ∈ seps, ∀ s ∈ ss, IsDelim s)
     (hr : img ≠ []) (hcpos : 0 < c) (hcols : ∀ row ∈ img, row.length = c) :
-    loadText parse 2 (saveWith fmt seps img) = loadText parse 2 (saveText fmt none img)
-      ∧ loadText parse 2 (saveWith fmt seps img) = some ([img.length, c], img.flatten) := by
-  have hne : ∀ row ∈ img, row ≠ [] := by
-    intro row hrow e
-    have := hcols row hrow
-    rw [e] at this
-    simp at this
-    omega
-  have h2 := load_of_table parse _ img c hr hcols (parse_saveWith fmt parse hc seps img hlen hs hne)
-  refine ⟨?_, h2⟩
-  rw [h2, text_roundtrip fmt parse hc none (by simp) img c hr hcpos hcols]
+    loadText conv 2 (saveWith fmt seps img) = loadText conv 2 (saveText fmt [] img)
+      ∧ loadText conv 2 (saveWith fmt seps img) = some ([img.length, c], img.flatten) := by
+  have h1 : loadText conv 2 (saveWith fmt seps img) = loadText conv 2 (saveText fmt [] img) :=
+    (delimiter_choice_irrelevant conv 2 _ _ (by
+      rw [normalise_saveWith fmt conv hc seps img hlen hs, ← normalise_saveWith fmt conv hc seps img hlen hs,
+        normalise_idem])).1
+  exact ⟨h1, by rw [h1]; exact text_roundtrip fmt conv hc [] (by simp) img c hr hcpos hcols⟩
 
-/-- regression documentation (fixed by commit 9e652ea): with `genfromtxt`'s default `ndmin = 0`
-a column of three values came back as a row; with `ndmin = 2` every shape is kept -/
-theorem text_column_wrong : shapeRule 0 3 1 = [1, 3] ∧ ∀ r c, shapeRule 2 r c = [r, c] :=
+/-- **files written by other tools**: a file of the class `foreignFile` — every line indented by
+spaces, its cells padded with spaces and separated by any of `,` `;` tab, an optional comment at the
+end, terminated by `\n`, `\r\n`, a lone `\r` or (last line) nothing, blank and comment-only lines
+anywhere — loads to the image formed by the values of the lines that have cells.  Beyond `Clean`
+the converter must ignore spaces around a number (`float` does; trusted like `Clean.roundtrip`);
+`foreignOk` is the decidable well-formedness of the description (see its definition). -/
+theorem foreign_file_loads (fmt : α → Str) (conv : Str → α) (hc : Clean fmt conv)
+    (hpad : ∀ x a b, conv (spaces a ++ fmt x ++ spaces b) = x)
+    (ls : List (FLine α)) (hok : foreignOk fmt ls = true) (c : Nat)
+    (hr : foreignImage ls ≠ []) (hcols : ∀ row ∈ foreignImage ls, row.length = c) :
+    loadText conv 2 (foreignFile fmt ls) = some ([(foreignImage ls).length, c], (foreignImage ls).flatten) := by
+  have htbl := fieldRows_foreign fmt conv hc ls hok
+  have himg : ((ls.filter (fun l => !l.cells.isEmpty)).map (rowFields fmt)).map (·.map conv) = foreignImage ls := by
+    unfold foreignImage
+    rw [List.map_map]
+    apply List.map_congr_left
+    intro l _
+    exact rowFields_values fmt conv hpad l
+  have hlen : ((ls.filter (fun l => !l.cells.isEmpty)).map (rowFields fmt)).length = (foreignImage ls).length := by
+    simp [foreignImage]
+  rw [load_of_fieldRows conv _ _ c ?_ ?_ htbl, himg, hlen]
+  · intro e
+    apply hr
+    rw [← himg, e]
+    rfl
+  · intro r hrm
+    obtain ⟨l, hl, rfl⟩ := List.mem_map.mp hrm
+    have h1 : (rowFields fmt l).length = ((rowFields fmt l).map conv).length := by simp
+    rw [h1, rowFields_values fmt conv hpad l]
+    apply hcols
+    unfold foreignImage
+    exact List.mem_map.mpr ⟨l, hl, rfl⟩
+
+/-- regression note, not a property theorem: it records what commit 9e652ea repaired.  With
+`genfromtxt`'s default `ndmin = 0` a column of three values came back as a row (first conjunct, an
+evaluation of the shape rule); the second conjunct only restates that `shapeRule 2` keeps a
+two-axis shape, which is what the definition says (near-definitional, kept for the contrast). -/
+theorem text_column_wrong : shapeRule 0 [3, 1] = [1, 3] ∧ ∀ r c, shapeRule 2 [r, c] = [r, c] :=
   ⟨by decide, shapeRule_two⟩
 
-/-- non-vacuity: a printer/parser pair satisfying `Clean`, and a single-column image -/
+/-- non-vacuity: a printer/converter pair satisfying `Clean`, and a single-column image -/
 def fmtB (b : Bool) : Str := if b then ['1'] else ['0']
-def parseB : Str → Option Bool
-  | ['1'] => some true
-  | ['0'] => some false
-  | _ => none
+def convB : Str → Bool
+  | ['1'] => true
+  | _ => false
 
-theorem clean_fmtB : Clean fmtB parseB := ⟨by decide, by decide, by decide⟩
+theorem clean_fmtB : Clean fmtB convB := ⟨by decide, by decide, by decide⟩
 
-example : loadText parseB 2 (saveText fmtB (some "x;#".toList) [[true], [false], [true]])
+example : loadText convB 2 (saveText fmtB "x;#\n1,0".toList [[true], [false], [true]])
     = some ([3, 1], [true, false, true]) :=
-  text_roundtrip fmtB parseB clean_fmtB _ (by decide) _ 1 (by decide) (by decide) (by decide)
+  text_roundtrip fmtB convB clean_fmtB _ (by decide) _ 1 (by decide) (by decide) (by decide)
 
-example : loadText parseB 2 (saveWith fmtB [[';', '\t'], [',', ';']] [[true, false, true], [false, false, true]])
+example : saveText fmtB "x;#\n1,0".toList [[true, false]] = "#x;#\n#1,0\n1,0\n".toList := by decide
+
+example : loadText convB 2 (saveWith fmtB [[';', '\t'], [',', ';']] [[true, false, true], [false, false, true]])
     = some ([2, 3], [true, false, true, false, false, true]) :=
-  (delimiters_agree fmtB parseB clean_fmtB _ _ 3 (by decide) (by simp [IsDelim]) (by decide) (by decide) (by decide)).2
+  (delimiters_agree fmtB convB clean_fmtB _ _ 3 (by decide) (by simp [IsDelim]) (by decide) (by decide) (by decide)).2
+
+example : loadText convB 2 "1;0\r\n0\t1".toList = loadText convB 2 "1,0\r\n0,1".toList :=
+  (delimiter_choice_irrelevant convB 2 _ _ (by decide)).1
+
+/-- non-vacuity of `foreign_file_loads`: a comment line, a padded row ended by `\r\n`, a blank
+line ended by a lone `\r`, a row with a comment and no terminator -/
+def convB' : Str → Bool := fun s => convB (s.filter (· ≠ ' '))
+
+theorem clean_fmtB' : Clean fmtB convB' := ⟨by decide, by decide, by decide⟩
+
+theorem pad_fmtB' (x : Bool) (a b : Nat) : convB' (spaces a ++ fmtB x ++ spaces b) = x := by
+  have h : ∀ n, (spaces n).filter (· ≠ ' ') = [] := by
+    intro n
+    simp [spaces]
+  unfold convB'
+  rw [List.filter_append, List.filter_append, h, h]
+  cases x <;> decide
+
+def linesB : List (FLine Bool) :=
+  [ { indent := 0, cells := [], seps := [], comment := some " h;1".toList, eol := .lf },
+    { indent := 2, cells := [(0, true, 1), (1, false, 0)], seps := [';'], comment := none, eol := .crlf },
+    { indent := 1, cells := [], seps := [], comment := none, eol := .cr },
+    { indent := 0, cells := [(0, false, 0), (0, true, 2)], seps := ['\t'], comment := some "x".toList, eol := .eof } ]
+
+example : foreignFile fmtB linesB = "# h;1\n  1 ; 0\r\n \r0\t1  #x".toList := by decide
+
+example : loadText convB' 2 (foreignFile fmtB linesB) = some ([2, 2], [true, false, false, true]) :=
+  foreign_file_loads fmtB convB' clean_fmtB' pad_fmtB' linesB (by decide) 2 (by decide) (by decide)
+
+/-! the loader model on files `save` never writes (what `genfromtxt` does with them) -/
+
+/-- empty and unparsable fields are fields (the converter makes them NaN), a trailing delimiter is a column -/
+example : loadFields 2 "1,,x\n2;3;\n".toList = some ([2, 3], ["1", "", "x", "2", "3", ""].map String.toList) := by decide
+/-- spaces around a line are stripped, those inside stay in the fields; `\r\n` and `\r` end lines;
+comments are cut; blank and comment-only lines are skipped; the last line needs no terminator -/
+example : loadFields 2 " 1 ; 2 \r\n\n# c\r3\t4 # d\n  \n5,6".toList
+    = some ([3, 2], ["1 ", " 2", "3", "4", "5", "6"].map String.toList) := by decide
+/-- no line with a field: an empty array of shape (0, 1), with a warning -/
+example : loadFields 2 "# only\n\n".toList = some ([0, 1], []) ∧ loadWarns "# only\n\n".toList = true := by decide
+/-- a row with another number of fields than the first: `ValueError` -/
+example : loadFields 2 "1,2\n3\n".toList = none := by decide
+/-- a carriage return in the header starts a line the writer did not prefix: the image grows a row -/
+example : loadText convB 2 (saveText fmtB "a\r1".toList [[true], [false]]) = some ([3, 1], [true, true, false]) := by
+  decide
 
 end text
 
@@ -142,61 +233,161 @@ theorem vtk_offsets_consistent (blocks : List (List α)) (k : Nat) (hk : k < blo
     rw [Nat.add_assoc, hskip (1 + p)]
     exact hhead.2 p hp
 
+/-- what `vtkRender` returns when it returns something -/
+theorem vtkRender_some (endian : Str) (sp : Str × Str × Str) (img : Image α) (file : VtkFile α)
+    (hf : vtkRender endian sp img = some file) :
+    img.fields ≠ [] ∧ file =
+      { head := (vtkHeadLines endian sp img.n1 img.n0 img.n2 (img.fields.map (·.name))
+            (offsetsFrom 0 ((img.fields.map fun f => vtkBlock (img.vol f)).map List.length))).flatMap (· ++ ['\n']) ++ ['_'],
+        body := appended (img.fields.map fun f => vtkBlock (img.vol f)),
+        tail := "</AppendedData>\n</VTKFile>".toList } := by
+  unfold vtkRender at hf
+  split at hf
+  · exact absurd hf (by simp)
+  · rename_i f0 tl heq
+    refine ⟨by rw [heq]; simp, ?_⟩
+    simp only [Option.some.injEq] at hf
+    rw [← hf]
+    rfl
+
+theorem blocks_lengths (img : Image α) :
+    (img.fields.map fun f => vtkBlock (img.vol f)).map List.length = img.fields.map fun _ => img.n1 * img.n0 * img.n2 := by
+  rw [List.map_map]
+  apply List.map_congr_left
+  intro f _
+  simp only [Function.comp, vtk_block_length]
+  rfl
+
+/-- **the header reads back**: the reader finds, in the header text written for an image of
+`ny = n0` rows, `nx = n1` columns and `nz = n2` layers, the file type, version, byte order and
+header type, `WholeExtent = Piece Extent = 0 nx 0 ny 0 nz`, the origin `0.0 0.0 0.0`, the three
+spacing values, the `Scalars` name, and per element its name (whatever characters it holds: the
+escaping is undone), `Float64`, `appended` and the offset `Σ_{j<k} (8·nx·ny·nz + 8)`.
+Hypothesis `HeadOk`: the opaque byte-order and spacing tokens hold no quote, ampersand, line break
+(nor a space inside one spacing value), and no element name holds a line break. -/
+theorem vtk_header_reads_back (endian : Str) (sp : Str × Str × Str) (img : Image α)
+    (h : HeadOk endian sp (img.fields.map (·.name))) (file : VtkFile α) (hf : vtkRender endian sp img = some file) :
+    vtkParse file.head = some (vtkMetaSpec endian sp img) := by
+  obtain ⟨_, rfl⟩ := vtkRender_some endian sp img file hf
+  simp only []
+  rw [vtkParse_headLines endian sp _ _ _ _ _ h, blocks_lengths]
+  rfl
+
+/-- **the file decodes to the image**: for the file `vtk.save` writes (header text, appended
+words), the reader's view of the header is the image's geometry (`vtk_header_reads_back`), and for
+every element `k` the declared offset is a multiple of 8, the word at that offset is the byte
+count `8·nx·ny·nz` — the declared extents times 8 — and the word `x + nx·(y + ny·z)` after it is the
+element's value at row `ny − 1 − y`, column `x`, layer `z`: x along the columns, y from the bottom row. -/
+theorem vtk_file_decodes (endian : Str) (sp : Str × Str × Str) (img : Image α)
+    (h : HeadOk endian sp (img.fields.map (·.name))) (file : VtkFile α) (hf : vtkRender endian sp img = some file) :
+    ∃ m, vtkParse file.head = some m ∧ m.whole = [0, img.n1, 0, img.n0, 0, img.n2] ∧ m.piece = m.whole ∧
+      m.arrays.map (·.name) = img.fields.map (·.name) ∧
+      ∀ k (hk : k < img.fields.length), ∃ a, m.arrays[k]? = some a ∧ a.offset % 8 = 0 ∧
+        file.body[a.offset / 8]? = some (Word.len (img.n1 * img.n0 * img.n2 * 8)) ∧
+        ∀ x y z, x < img.n1 → y < img.n0 → z < img.n2 →
+          file.body[a.offset / 8 + 1 + (x + img.n1 * (y + img.n0 * z))]?
+            = some (Word.val ((img.fields[k]).get (img.n0 - 1 - y) x z)) := by
+  have hparse := vtk_header_reads_back endian sp img h file hf
+  obtain ⟨_, rfl⟩ := vtkRender_some endian sp img file hf
+  have hw : (vtkMetaSpec endian sp img).whole = [0, img.n1, 0, img.n0, 0, img.n2] := by unfold vtkMetaSpec; rfl
+  have hpc : (vtkMetaSpec endian sp img).piece = (vtkMetaSpec endian sp img).whole := by unfold vtkMetaSpec; rfl
+  have harr : (vtkMetaSpec endian sp img).arrays = (List.zip (img.fields.map (·.name))
+      (offsetsFrom 0 (img.fields.map fun _ => img.n1 * img.n0 * img.n2))).map
+      fun p => ({ name := p.1, type := "Float64".toList, format := "appended".toList, offset := p.2 } : ArrayMeta) := by
+    unfold vtkMetaSpec; rfl
+  refine ⟨vtkMetaSpec endian sp img, hparse, hw, hpc, ?_, ?_⟩
+  · rw [harr, List.map_map]
+    rw [show ((fun a : ArrayMeta => a.name) ∘ fun p : Str × Nat =>
+        ({ name := p.1, type := "Float64".toList, format := "appended".toList, offset := p.2 } : ArrayMeta)) = Prod.fst from rfl]
+    apply List.map_fst_zip
+    simp [offsetsFrom_length]
+  · intro k hk
+    have hkb : k < (img.fields.map fun f => vtkBlock (img.vol f)).length := by simpa using hk
+    obtain ⟨ho, hmod, hlenw, hvals⟩ := vtk_offsets_consistent (img.fields.map fun f => vtkBlock (img.vol f)) k hkb
+    have hbk : (img.fields.map fun f => vtkBlock (img.vol f))[k] = vtkBlock (img.vol img.fields[k]) := by simp
+    have hbl : ((img.fields.map fun f => vtkBlock (img.vol f))[k]).length = img.n1 * img.n0 * img.n2 := by
+      rw [hbk, vtk_block_length]; rfl
+    rw [blocks_lengths] at ho
+    refine ⟨{ name := (img.fields[k]).name, type := "Float64".toList, format := "appended".toList,
+              offset := (((img.fields.map fun f => vtkBlock (img.vol f)).take k).map (fun b => b.length * 8 + 8)).sum },
+            ?_, hmod, ?_, ?_⟩
+    · have hzip : ((img.fields.map (·.name)).zip (offsetsFrom 0 (img.fields.map fun _ => img.n1 * img.n0 * img.n2)))[k]?
+          = some ((img.fields[k]).name,
+              (((img.fields.map fun f => vtkBlock (img.vol f)).take k).map (fun b => b.length * 8 + 8)).sum) :=
+        List.getElem?_zip_eq_some.mpr ⟨by simp [hk], ho⟩
+      rw [harr, List.getElem?_map, hzip]
+      rfl
+    · show (appended (img.fields.map fun f => vtkBlock (img.vol f)))[_]? = _
+      rw [hlenw, hbl]
+    · intro x y z hx hy hz
+      have hp : x + img.n1 * (y + img.n0 * z) < ((img.fields.map fun f => vtkBlock (img.vol f))[k]).length := by
+        rw [hbl]
+        have h1 : y + img.n0 * z < img.n0 * img.n2 := by
+          have : img.n0 * z + img.n0 ≤ img.n0 * img.n2 := by
+            rw [← Nat.mul_succ]; exact Nat.mul_le_mul_left _ hz
+          omega
+        have h2 : img.n1 * (y + img.n0 * z) + img.n1 ≤ img.n1 * (img.n0 * img.n2) := by
+          rw [← Nat.mul_succ]; exact Nat.mul_le_mul_left _ h1
+        rw [Nat.mul_assoc]; omega
+      show (appended (img.fields.map fun f => vtkBlock (img.vol f)))[_]? = _
+      rw [hvals _ hp]
+      have hd : (vtkBlock (img.vol img.fields[k]))[x + img.n1 * (y + img.n0 * z)]?
+          = some ((img.fields[k]).get (img.n0 - 1 - y) x z) := vtk_decode (img.vol img.fields[k]) x y z hx hy hz
+      rw [← hbk, List.getElem?_eq_getElem hp] at hd
+      simp only [Option.some.injEq] at hd
+      rw [hd]
+
+/-- non-vacuity: a 2×3 image with two elements, one of them with a name that needs escaping -/
+def imgB : Image Nat :=
+  { n0 := 2, n1 := 3, n2 := 1,
+    fields := [{ name := "a&\"b\"<".toList, get := fun i j _ => 10 * i + j }, { name := "c".toList, get := fun i j _ => 100 + 10 * i + j }] }
+
+theorem headOk_imgB : HeadOk "LittleEndian".toList ("1".toList, "2.5".toList, "1e-05".toList) (imgB.fields.map (·.name)) :=
+  ⟨by decide, by decide, by decide⟩
+
+example : ∃ file, vtkRender "LittleEndian".toList ("1".toList, "2.5".toList, "1e-05".toList) imgB = some file ∧
+    vtkParse file.head = some (vtkMetaSpec "LittleEndian".toList ("1".toList, "2.5".toList, "1e-05".toList) imgB) := by
+  cases hf : vtkRender "LittleEndian".toList ("1".toList, "2.5".toList, "1e-05".toList) imgB with
+  | none => simp [vtkRender, imgB] at hf
+  | some file => exact ⟨file, rfl, vtk_header_reads_back _ _ _ headOk_imgB file hf⟩
+
+example : ∃ file m a, vtkRender "LittleEndian".toList ("1".toList, "2.5".toList, "1e-05".toList) imgB = some file ∧
+    vtkParse file.head = some m ∧ m.arrays[1]? = some a ∧ a.offset = 56 ∧
+    file.body[a.offset / 8]? = some (Word.len 48) ∧ file.body[a.offset / 8 + 1 + (2 + 3 * (0 + 2 * 0))]? = some (Word.val 112) := by
+  cases hf : vtkRender "LittleEndian".toList ("1".toList, "2.5".toList, "1e-05".toList) imgB with
+  | none => simp [vtkRender, imgB] at hf
+  | some file =>
+    obtain ⟨m, hm, _, _, _, hk⟩ := vtk_file_decodes _ _ _ headOk_imgB file hf
+    obtain ⟨a, ha, _, hlen, hval⟩ := hk 1 (by decide)
+    have hoff : a.offset = 56 := by
+      rw [vtk_header_reads_back _ _ _ headOk_imgB file hf] at hm
+      injection hm with hm
+      subst hm
+      have : (vtkMetaSpec "LittleEndian".toList ("1".toList, "2.5".toList, "1e-05".toList) imgB).arrays[1]?
+          = some { name := "c".toList, type := "Float64".toList, format := "appended".toList, offset := 56 } := by
+        unfold vtkMetaSpec; rfl
+      rw [this] at ha
+      injection ha with ha
+      rw [← ha]
+    exact ⟨file, m, a, rfl, hm, ha, hoff, hlen, hval 2 0 0 (by decide) (by decide) (by decide)⟩
+
+example : natStr 1207 = "1207".toList := by
+  rw [natStr, natStr, natStr, natStr]; decide
+
+example : arrayLine "a&\"b\"<".toList 56
+    = "<DataArray Name=\"a&amp;&quot;b&quot;&lt;\" type=\"Float64\" format=\"appended\" offset=\"56\"/>".toList := by
+  have : natStr 56 = "56".toList := by rw [natStr, natStr]; decide
+  rw [arrayLine, this]; decide
+
 end vtk
 
 /-- the five sequential replacements of the code (ampersand first) escape every character
 independently: no replacement re-escapes the output of an earlier one -/
-theorem escape_mech_eq_spec (s : Str) : escapeMech s = escapeSpec s := by
-  unfold escapeMech escapeSpec
-  simp only [replaceC_eq]
-  induction s with
-  | nil => rfl
-  | cons x s ih =>
-    simp only [List.flatMap_cons, List.flatMap_append]
-    rw [ih, escape_char x]
+theorem escape_mech_eq_spec (s : Str) : escapeMech s = escapeSpec s := escapeMech_eq_spec s
 
 /-- **escaping is inverted by entity decoding**, for every string (also one that already contains
 entity text such as `&amp;`) -/
-theorem escape_inverse (s : Str) : unescape (escapeMech s) = s := by
-  rw [escape_mech_eq_spec]
-  induction s with
-  | nil => simp [escapeSpec, unescape]
-  | cons c s ih =>
-    have hcons : escapeSpec (c :: s) = escChar c ++ escapeSpec s := by simp [escapeSpec]
-    rw [hcons]
-    unfold escChar
-    by_cases h1 : c = '&'
-    · subst h1
-      rw [if_pos rfl]
-      have := unescape_entity "amp;".toList '&' (escapeSpec s) (by simp [entityAt])
-      simpa [ih] using this
-    · rw [if_neg h1]
-      by_cases h2 : c = '<'
-      · subst h2
-        rw [if_pos rfl]
-        have := unescape_entity "lt;".toList '<' (escapeSpec s) (by simp [entityAt])
-        simpa [ih] using this
-      · rw [if_neg h2]
-        by_cases h3 : c = '>'
-        · subst h3
-          rw [if_pos rfl]
-          have := unescape_entity "gt;".toList '>' (escapeSpec s) (by simp [entityAt])
-          simpa [ih] using this
-        · rw [if_neg h3]
-          by_cases h4 : c = '"'
-          · subst h4
-            rw [if_pos rfl]
-            have := unescape_entity "quot;".toList '"' (escapeSpec s) (by simp [entityAt])
-            simpa [ih] using this
-          · rw [if_neg h4]
-            by_cases h5 : c = '\''
-            · subst h5
-              rw [if_pos rfl]
-              have := unescape_entity "apos;".toList '\'' (escapeSpec s) (by simp [entityAt])
-              simpa [ih] using this
-            · rw [if_neg h5]
-              simp only [List.singleton_append]
-              rw [unescape_plain c _ h1, ih]
+theorem escape_inverse (s : Str) : unescape (escapeMech s) = s := unescape_escapeMech s
 
 example : escapeMech "a<b&amp;'".toList = "a&lt;b&amp;amp;&apos;".toList := by decide
 
